@@ -814,16 +814,23 @@ def install(E):
         if simp(both) is False:
             eqp = True
         else:
-            pa, pb = payload(E, a, 1), payload(E, b, 1)
+            ity = m.group(1)
+            pa, pb = payload(E, a, 1, 0, ity, mem), payload(E, b, 1, 0, ity, mem)
             if isinstance(pa, I) and isinstance(pb, I):
                 eqp = zint(pa.t) == zint(pb.t)
             elif isinstance(pa, B) and isinstance(pb, B):
                 eqp = zbool(pa.t) == zbool(pb.t)
             else:
-                return NotImplemented
+                # delegate to the payload type's own PartialEq (crate code or another model)
+                ca, cb = E.new_cell(), E.new_cell()
+                mem[ca], mem[cb] = pa, pb
+                res = E.call('<%s as PartialEq>::eq' % ity, [Ref(ca), Ref(cb)], simp(And(guard, both)), mem, 'bool', caller)
+                if res is DIVERGE or not isinstance(res[0], B):
+                    return NotImplemented
+                eqp = zbool(res[0].t)
         r = Or(And(Not(sa), Not(sb)), And(both, eqp))
-        return B(simp(r) if m.group(1) == 'eq' else simp(Not(r)))
-    reg(r'^<(?:std::option::)?Option<\w+> as PartialEq>::(eq|ne)$', h_opt_eq)
+        return B(simp(r) if m.group(2) == 'eq' else simp(Not(r)))
+    reg(r'^<(?:std::option::)?Option<(.+)> as PartialEq>::(eq|ne)$', h_opt_eq)
 
     def h_iter_next(E, m, func, argv, guard, mem, dty, caller):
         r = argv[0]
